@@ -757,7 +757,13 @@ class Emitter:
             init, condvar, cond, inc, body = (raw + [{}] * 5)[:5]
             if condvar:
                 raise ExtractError('for with condition variable')
-            lc = self.loop_contract(fn)
+            # the induction variable (first variable declared by the for-init) is available to loop contracts as $LV,
+            # so that renaming it in the source does not touch the contract
+            lv = ''
+            if init and init.get('kind') == 'DeclStmt':
+                vds = [c for c in inner(init) if c.get('kind') == 'VarDecl']
+                lv = vds[0].get('name', '') if vds else ''
+            lc = self.loop_contract(fn, lv)
             s = p + '{\n'
             if init:
                 s += self.S(init, ind + 1, fn)
@@ -824,11 +830,11 @@ class Emitter:
                 return d['name']
         return None
 
-    def loop_contract(self, fn):
+    def loop_contract(self, fn, lv=''):
         self.loop_ordinal = getattr(self, 'loop_ordinal', {})
         o = self.loop_ordinal.get(fn['id'], 0)
         self.loop_ordinal[fn['id']] = o + 1
-        return '/*LOOP:%s:%d*/\n' % (self.fname(fn), o)
+        return '/*LOOP:%s:%d:%s*/\n' % (self.fname(fn), o, lv)
 
     def S_if(self, n, ind, fn):
         p = '  ' * ind
@@ -1503,6 +1509,21 @@ class Emitter:
             ft = ft[1]
         if ft[0] != 'f':
             raise ExtractError('indirect call through non-function type')
+        # a call through a function-pointer variable has no body to verify against: it must be given a contract stub
+        # (opts indirect_stubs / param_fn_stubs); left as a C indirect call cbmc would report pointer-check failures that say
+        # nothing about the property, so fail closed (exit 2) instead
+        c = callee_e
+        while c.get('kind') in ('ImplicitCastExpr', 'ParenExpr', 'UnaryOperator') and inner(c):
+            if c.get('kind') == 'UnaryOperator' and c.get('opcode') != '*':
+                break
+            c = inner(c)[0]
+        if c.get('kind') == 'DeclRefExpr' and c['referencedDecl'].get('kind') in ('VarDecl', 'ParmVarDecl') and not self.opts.get('allow_unstubbed_indirect_calls'):
+            try:
+                vt = T.strip_quals(T.strip_ref(T.parse(qt(c))))
+            except T.TypeParseError:
+                vt = None
+            if vt is not None and '(lambda' not in qt(c) and vt[0] == 'p' and T.strip_quals(vt[1])[0] == 'f':
+                raise ExtractError('call through function-pointer variable %r (%s | %r) without a contract stub' % (c['referencedDecl'].get('name'), qt(c), c.get('type')))
         ce = self.E(callee_e)
         out = []
         for a, pt in zip(args, ft[2]):
